@@ -131,7 +131,8 @@ def generate(seed, tier):
     rng = Rng(seed, 'world')
     sw = Rng(seed, 'swarm')
     prof = profile(
-        win=t['win'], max_cells=t['max_cells'], min_cells=3, max_books=1,
+        win=t['win'], max_cells=t['max_cells'], min_cells=3,
+        max_books=sw.pick([1, 1, 2]),
         max_sheets=sw.pick([1, 2]), p_arr=sw.pick([0, .15]),
         p_name=sw.pick([0, .15]), p_cross=.4, p_text=0, p_bool=0, p_err=0,
         p_frac=.1, depth=sw.pick([1, 2]), w_if=sw.pick([0, 1.5]),
@@ -197,10 +198,12 @@ def generate(seed, tier):
                        [k for k in kinds if k != 'RANDBETWEEN'] or ['NOW'])
         world['vnames'] = [{'b': 0, 'f': volatile_form(
             vr, ['n', vr.randrange(0, 5)], kind)}]
-        at = free_slot(world)
+        # (a defined name belongs to one workbook: its users are cells of
+        # that workbook)
+        at = free_slot(world, 0)
         world['cells'].append({'at': at, 'f': ['op', '+', ['vn', 0],
                                                ['n', 1]]})
-        at2 = free_slot(world)
+        at2 = free_slot(world, 0)
         world['cells'].append({'at': at2, 'f': ['op', '-', ['r'] + at + at[2:],
                                                 ['vn', 0]]})
     srng = Rng(seed, 'sched')
@@ -212,7 +215,10 @@ def generate(seed, tier):
         s['order'] = srng.perm(len(world['cells']) + len(world['names']) +
                                len(world.get('vnames', [])))
     else:
-        s.update(mode='loads', book_order=[0], sheet_orders={},
+        # (with two books: both loaded in a seeded order, or only the first
+        # and the other pulled in by finish() through the references)
+        s.update(mode=srng.pick(['loads', 'loads', 'root']),
+                 book_order=srng.perm(len(world['books'])), sheet_orders={},
                  exec_seed=None, compact=srng.pick([1, 1, 1000]))
     # executables and interleaved evaluation steps
     er = Rng(seed, 'exes')
@@ -304,16 +310,19 @@ def generate(seed, tier):
             'np_seed': Rng(seed, 'np').randrange(1 << 32)}
 
 
-def free_slot(world):
+def free_slot(world, book=None):
     idx = Index(world)
     for b, bk in enumerate(world['books']):
+        if book is not None and b != book:
+            continue
         for s, (h, w) in enumerate(bk):
             for r in range(h):
                 for c in range(w):
                     if idx.occupant((b, s, r, c)) is None:
                         return [b, s, r, c]
-    world['books'][0][0][0] += 1
-    return [0, 0, world['books'][0][0][0] - 1, 0]
+    b = book or 0
+    world['books'][b][0][0] += 1
+    return [b, 0, world['books'][b][0][0] - 1, 0]
 
 
 # ------------------------------------------------------------------- execute
